@@ -15,21 +15,19 @@ DESIGN_REF = "§5 C46"
 TECHNIQUE = ("Coq proof (regexp-style matcher = declarative wildcard rules; map-counting decision = 'most specific wins / equal patterns conflict'; "
              "clean = exactly the untracked non-ignored tables; staging-all characterised, with a refuted clause) + in-Coq correspondence against "
              "IsTableNameIgnored / MatchTablePattern and dolt_add / dolt_commit / dolt_clean in an in-process engine")
-LEVEL_TEXT = ("Proof (F/M for the pattern matcher and for clean; P for the decision: proved equal to 'most specific wins / same patterns conflict' for "
-              "every pattern set in which no matching pattern with '?' meets a contradicting matching pattern with '%' or '.' (exactly where the "
-              "compiled and the stated '?' class can differ), refuted in general by a witness that also fails on the real code ('?' class rewritten); staging-all: "
-              "the clause 'every other change is staged' is refuted by witnesses that also fail on the real code, the staging model itself rests on "
-              "the correspondence; a positive staging theorem and permutation invariance of the pattern list are not proved). The specificity test is "
-              "proved sound (it implies inclusion of the matched names) for newline-free patterns. The model is tied to the code by running both on generated pattern sets / table names and on working sets "
-              "driven through the SQL procedures, compared inside Coq.")
+LEVEL_TEXT = ("Proof (F/M for the pattern matcher, the Ignore/DontIgnore/Conflict decision — equal to 'most specific wins / same patterns conflict' "
+              "for every pattern set with distinct patterns per polarity and every table name — and clean; the specificity test is proved sound "
+              "(it implies inclusion of the matched names) for newline-free patterns. Staging-all: the clause 'every other change is staged' is "
+              "refuted by witnesses that also fail on the real code (open known finding); the staging model rests on the correspondence; a positive "
+              "staging theorem and permutation invariance of the pattern list are not proved). The model is tied to the code by running both on "
+              "generated pattern sets / table names and on working sets driven through the SQL procedures, compared inside Coq.")
 LEVEL_NOTE = ("Trusted: Coq kernel, Go harness + Python glue. Modelled, not verified: Go's regexp engine (modelled as a backtracking matcher over code "
-              "points with '.' excluding newline and the negated class — as compiled: [^.*.*] — including it), regexp.QuoteMeta (every rune other than ? * % is a literal), "
+              "points with '.' excluding newline and the negated class [^\\*%] including it), regexp.QuoteMeta (every rune other than ? * % is a literal), "
               "strings.EqualFold for 'dolt_rebase' (ASCII case + U+017F), diff.GetTableDeltas (match by name, then by identity), the SQL engine "
               "and root-value storage (roots are observed as name/identity/row-count triples).")
-THEOREMS = ["rx_eq_glob_b", "glob_b_iff_glob", "match_table_pattern_spec", "decision_is_spec_partial", "decision_is_spec_partial2",
-            "decision_most_specific_refuted", "more_specific_sound", "clean_is_spec", "clean_keeps_tracked",
-            "stage_all_every_other_change_refuted", "stage_all_rename_refuted"]
-REFUTED = ["decision_most_specific_refuted", "stage_all_every_other_change_refuted", "stage_all_rename_refuted"]
+THEOREMS = ["rx_eq_glob_b", "glob_b_iff_glob", "match_table_pattern_spec", "decision_is_spec", "decision_is_spec_pk", "more_specific_sound",
+            "clean_is_spec", "clean_is_spec_pk", "clean_keeps_tracked", "stage_all_every_other_change_refuted", "stage_all_rename_refuted"]
+REFUTED = ["stage_all_every_other_change_refuted", "stage_all_rename_refuted"]
 RULE = ("decision cases: 0-5 patterns built from the table name by wildcard substitution, respelling of runs ('*' vs '%', doubled), more-specific "
         "chains, contradicting polarities, over code points {a b A _ . \\ ? * % newline e-acute}; names include empty, newline, non-ASCII and "
         "dolt_rebase fold variants; SQL cases: head/staged/working sets with new, dropped, modified and renamed tables, 0-4 dolt_ignore rows, one of "
@@ -39,11 +37,10 @@ ASSUMPTIONS = ["patterns and names are valid UTF-8 (invalid UTF-8 makes regexp.C
                "the map-size comparison of resolveConflictingPatterns reports a conflict (Example decision_duplicate_quirk)",
                "a table name is never reused by a different table inside one SQL scenario (rename detection by identity is then unambiguous)"]
 REQUIRED_TAGS = ["res-ignore", "res-dont", "res-conflict", "conflict-same-pattern", "conflict-unresolved", "specific-override", "same-pattern-shadowed",
-                 "wild-star", "wild-pct", "wild-q", "empty-name", "empty-pattern", "newline", "nonascii", "rebase", "backslash", "specificity-tie",
+                 "wild-star", "wild-pct", "wild-q", "former-qmark-defect-class", "empty-name", "empty-pattern", "newline", "nonascii", "rebase", "backslash", "specificity-tie",
                  "sql-add", "sql-commit", "sql-clean", "sql-clean-x", "sql-dry", "sql-conflict-err", "sql-nothing-to-commit", "sql-rename",
                  "sql-drop", "sql-mod", "sql-new-ignored", "sql-drop-ignored", "sql-removed-untracked"]
 KNOWN_KEY = "stage-all:tracked-table-change-with-ignored-name-not-staged"
-KNOWN_KEY_QMARK = "more-specific:question-mark-class-rewritten-by-later-replacements"
 COQ_SHARD = 400
 
 # ---------------------------------------------------------------------------
@@ -72,8 +69,8 @@ def _match(p, n):
 
 
 def _more_specific(less, a, as_coded=False):
-    """as_coded: the class that getMoreSpecificPatterns really compiles, "[^.*.*]" (its later replacements rewrite the
-    "[^\\*%]" it has just inserted); otherwise the class its comment states"""
+    """as_coded: the class getMoreSpecificPatterns compiled before d28426b, "[^.*.*]" (kept only to tag the inputs on which the
+    repaired defect showed); otherwise the class [^\\*%] of the code"""
     return _rx(less, r"[^.*]" if as_coded else r"[^\*%]").match(a) is not None
 
 
@@ -285,6 +282,9 @@ FIXED_DEC = [
     _dec([("*", False)], "dolt_rebase"), _dec([("*", False)], "DOLT_rebaSE"), _dec([], "dolt_rebaſe"), _dec([("x", True)], "dolt_rebas"),
     _dec([("a**b", True), ("a%b", False)], "ab"), _dec([("a*", True), ("a*", False)], "ab"), _dec([("?", True), ("\n", False)], "\n"),
     _dec([("a*", True), ("*b", False), ("ab", True)], "ab"), _dec([("a*", True), ("*b", False), ("a?", False)], "ab"),
+    # regression: the '?' class of the specificity test (repaired in d28426b)
+    _dec([("_%", False), ("_?", True)], "_b"), _dec([("%a", True), ("??", False)], "ba"), _dec([("?%", True), ("*?", False)], "a"),
+    _dec([("a?", True), ("a.", False)], "a."), _dec([("a?", False), ("a%", True)], "ab"),
 ]
 
 
@@ -305,6 +305,9 @@ def gen_cases(rng, tier):
         {"k": "sql", "pats": [{"p": [ord("a"), ord("*")], "ig": True}, {"p": [ord("a"), ord("%")], "ig": False}], "head": [{"o": "new", "n": "t1", "id": 1}],
          "work": [{"o": "new", "n": "ab", "id": 2}], "act": "clean"},
         {"k": "sql", "pats": [{"p": [ord("*")], "ig": True}], "head": [{"o": "new", "n": "t1", "id": 1}], "work": [{"o": "new", "n": "ab", "id": 2}], "act": "commit_all"},
+        # regression (d28426b): '_b' must be ignored — the most specific matching pattern is '_?'
+        {"k": "sql", "pats": [{"p": [ord("_"), ord("%")], "ig": False}, {"p": [ord("_"), ord("?")], "ig": True}], "head": [{"o": "new", "n": "t1", "id": 1}],
+         "work": [{"o": "new", "n": "_b", "id": 2}], "act": "add_all"},
     ]
     cases += fixed_sql
     for _ in range(ns):
@@ -442,7 +445,7 @@ def classify(case, out):
             else:
                 t.append("specific-override")
         if _decide(pats, name, True) != _decide(pats, name, False):
-            t.append("qmark-class-defect")
+            t.append("former-qmark-defect-class")
         allp = "".join(p for p, _ in pats)
         for k, ch in (("wild-star", "*"), ("wild-pct", "%"), ("wild-q", "?"), ("backslash", "\\")):
             if ch in allp:
@@ -494,8 +497,6 @@ def match_known(finding, case, out):
     """The known class: dolt_add -A / dolt_add . / dolt_commit -A filters *every* table name through dolt_ignore, so a modified or
     renamed tracked table whose (new) name is ignored is left unstaged.  A failing case belongs to it exactly when the staged root
     the implementation produced is the one that rule yields and it differs from what the property requires."""
-    if finding.get("key") == KNOWN_KEY_QMARK:
-        return _match_qmark(case, out)
     if finding.get("key") != KNOWN_KEY or case.get("k") != "sql" or case.get("act") not in ("add_all", "add_dot", "commit_all"):
         return False
     o = out.get("obs")
@@ -510,30 +511,6 @@ def match_known(finding, case, out):
     if q["err"] == 2 and case["act"] == "commit_all":
         return _as_map(q["preh"]) == impl and _as_map(q["posts"]) == _as_map(q["pres"])
     return False
-
-
-def _match_qmark(case, out):
-    """The known class: getMoreSpecificPatterns compiles "?" to "[^.*.*]" instead of "[^\\*%]", so a "?" is taken to cover a "%"
-    (and not a "."); a decision belongs to the class exactly when the implementation's verdict is the one the procedure gives
-    with that class and differs from the one it gives with the stated class."""
-    o = out.get("obs")
-    if not o:
-        return False
-    if case.get("k") == "dec":
-        d = o.get("dec")
-        if not d:
-            return False
-        pats = [(_s(p["p"]), p["ig"]) for p in case["pats"]]
-        name = _s(case["name"])
-        coded, stated = _decide(pats, name, True), _decide(pats, name, False)
-        return coded != stated and d["res"] == coded and d["match"] == [_match(p, name) for p, _ in pats]
-    q = o.get("sql")
-    if not q:
-        return False
-    pats = [(_s(p["p"]), p["ig"]) for p in q["pats"]]
-    dec = _impl_dec(q)
-    diff = [n for n in dec if _decide(pats, n, True) != _decide(pats, n, False)]
-    return bool(diff) and all(dec[n] == _decide(pats, n, True) for n in dec)
 
 
 def shrink_candidates(case):
